@@ -63,7 +63,7 @@ func (d *qeDom) Gen(r *gen.R, tier string, emit func(string)) {
 		emit(wire.Line("reset"))
 		typ := strconv.Itoa(r.Intn(3))
 		if r.Chance(1, 8) {
-			emit(wire.Line("startfail", typ))
+			emit(wire.Line(r.Pick([]string{"startfail", "startstopped"}), typ))
 			continue
 		}
 		emit(wire.Line("start", typ))
@@ -103,6 +103,17 @@ func countListeners() int {
 	buf := make([]byte, 1<<20)
 	n := runtime.Stack(buf, true)
 	return strings.Count(string(buf[:n]), "startQueryListener")
+}
+
+// settledListeners counts the query listener goroutines once they have had time to end: the
+// goroutine of an expired query event ends a moment after the nil callback (on a loaded machine,
+// many milliseconds after); one that is still there after two seconds is a leak.
+func settledListeners() int {
+	n := countListeners()
+	for dl := time.Now().Add(2 * time.Second); n > 0 && time.Now().Before(dl); n = countListeners() {
+		time.Sleep(2 * time.Millisecond)
+	}
+	return n
 }
 
 func (d *qeDom) cb(r res.QueryRequest) {
@@ -283,6 +294,49 @@ func (d *qeDom) Exec(a []string) string {
 		case "reset":
 			d.Close()
 			return "ok"
+		case "startstopped":
+			// a Resource obtained while the service ran, used for a query event after its Shutdown
+			d.Close()
+			d.cbCalls, d.nilCalls = 0, 0
+			d.nilCh = make(chan struct{}, 4)
+			s := res.NewService("svc")
+			s.SetLogger(svc.NopLogger{})
+			s.SetQueryEventDuration(30 * time.Millisecond)
+			opts := []res.Option{res.GetResource(func(r res.GetRequest) { r.NotFound() })}
+			switch a[1] {
+			case "1":
+				opts = append(opts, res.Model)
+			case "2":
+				opts = append(opts, res.Collection)
+			}
+			s.Handle("q", opts...)
+			run, err := svc.Start(s)
+			if err != nil {
+				return "start-failed"
+			}
+			held := make(chan res.Resource, 1)
+			if err := s.With("svc.q", func(r res.Resource) { held <- r }); err != nil {
+				run.Stop()
+				return "with-failed"
+			}
+			hr := <-held
+			// Shutdown itself must have returned (Serve returns a little earlier, while the
+			// connection field is still set)
+			sd := make(chan struct{})
+			go func() { s.Shutdown(); close(sd) }()
+			select {
+			case <-sd:
+			case <-time.After(10 * time.Second):
+				return "hang-shutdown"
+			}
+			<-run.Done
+			from := run.C.NumPubs()
+			hr.QueryEvent(d.cb)
+			time.Sleep(100 * time.Millisecond) // several durations: a second or a late nil call would show
+			ls := settledListeners()
+			d.mu.Lock()
+			defer d.mu.Unlock()
+			return fmt.Sprintf("nil=%d pubs=%d listener=%d", d.nilCalls, run.C.NumPubs()-from, ls)
 		case "start", "startfail":
 			d.Close()
 			d.cbCalls, d.nilCalls = 0, 0
@@ -329,9 +383,10 @@ func (d *qeDom) Exec(a []string) string {
 				}
 			}
 			if a[0] == "startfail" {
+				ls := settledListeners()
 				d.mu.Lock()
 				defer d.mu.Unlock()
-				return fmt.Sprintf("nil=%d pubs=%d listener=%d", d.nilCalls, npub, countListeners())
+				return fmt.Sprintf("nil=%d pubs=%d listener=%d", d.nilCalls, npub, ls)
 			}
 			if d.subject == "" {
 				return "no-query-subject"
@@ -351,10 +406,10 @@ func (d *qeDom) Exec(a []string) string {
 			case <-d.nilCh:
 			case <-time.After(3 * time.Second):
 			}
-			time.Sleep(5 * time.Millisecond) // let the listener goroutine finish
+			ls := settledListeners() // let the listener goroutine finish
 			d.mu.Lock()
 			defer d.mu.Unlock()
-			return fmt.Sprintf("nil=%d cb=%d listener=%d", d.nilCalls, d.cbCalls, countListeners())
+			return fmt.Sprintf("nil=%d cb=%d listener=%d", d.nilCalls, d.cbCalls, ls)
 		}
 		return "bad-op"
 	})
